@@ -105,6 +105,34 @@ pub struct ME {
 
 pub type Model = BTreeMap<u32, ME>;
 
+thread_local! {
+    /// states an entry legitimately had during the current operation (intermediate states of
+    /// multi-step operations); used by the fault oracle
+    static LEGIT: std::cell::RefCell<Vec<(u32, ME)>> = const { std::cell::RefCell::new(Vec::new()) };
+}
+pub fn legit_push(k: u32, me: ME) {
+    let _s = Suspend::new();
+    LEGIT.with(|l| {
+        let mut l = l.borrow_mut();
+        if l.len() < 4096 {
+            l.push((k, me));
+        }
+    });
+}
+pub fn legit_clear() {
+    LEGIT.with(|l| l.borrow_mut().clear());
+}
+/// a completed step of a multi-step operation removed key `k`: "absent" is a legitimate state
+pub fn legit_absent(k: u32) {
+    legit_push(k, ME { kid: u32::MAX, v: u32::MAX, vid: u32::MAX });
+}
+pub fn legit_absent_ok(k: u32) -> bool {
+    LEGIT.with(|l| l.borrow().iter().any(|x| x.0 == k && x.1.kid == u32::MAX && x.1.vid == u32::MAX))
+}
+pub fn legit_for(k: u32) -> Vec<ME> {
+    LEGIT.with(|l| l.borrow().iter().filter(|x| x.0 == k).map(|x| x.1).collect())
+}
+
 pub struct Slot<F: Fam> {
     pub map: Map<F>,
     pub model: Model,
@@ -1171,7 +1199,7 @@ impl<F: Fam> Ctx<F> {
         self.z_finish()?;
         self.probe_key = F::K::mk(u32::MAX);
         self.ledger_check(&[])?;
-        if F::K::TRACKED {
+        if F::K::TRACKED && !self.post_fault {
             // everything except the probe key and allowed leaks must be dropped by now
             let live = ledger_live_ids();
             let probe_id = self.probe_key.id();
